@@ -103,3 +103,9 @@ claim("C19", "fault injection with per-case enumeration of every fault index (wr
       "exception reaching the caller is the injected object, unchained; what was written is a prefix of the fault-free output; afterwards a fixed dump/load battery and a new call with the same class give their "
       "reference results and the digest of the package's global state is unchanged.",
       "Trusted: the instrumented writer/reader in checks/c19.py; faults are exceptions raised at call boundaries of the caller's objects.", category="fault_enumeration")
+claim("C20", "metamorphic size-doubling test over a catalogue of parameterised document/value families, work measured as a deterministic count of Python-level calls (sys.monitoring), parameters drawn by Hypothesis",
+      "38 load families and 18 dump families (every scalar style on one and many lines, escapes, block/flow entries, single-line flow collections, many documents, anchors, many aliases to one node, doubling alias "
+      "chains, comments, blank and space runs, long keys, tags, merges, numbers, binary, sets/omaps; lists, dicts, sets, strings per style, shared objects, unicode, controls, floats) at sizes n, 2n, 4n with "
+      "drawn filler word / line break / indent / key length / dump options; oracle: calls(2n)/calls(n) <= 2.15, calls(4n)/calls(2n) <= 2.15, second-difference ratio <= 2.3. Every family is run at least "
+      "once per run with default parameters.",
+      "Trusted: sys.monitoring PY_START counting (vlib/monitors.py). Work inside single C calls is invisible; the property is stated in interpreter-level calls.")
